@@ -105,6 +105,20 @@ def sources():
     out.append(('hashtagRegex', ht.HashtagRegex, FLAG_IS, 'BaseHashtag.HashtagRegex (regex.I | regex.S)'))
     mn = load_class(_res('recognizers-sequence', 'recognizers_sequence', 'base_mention.py'), 'BaseMention')
     out.append(('mentionRegex', mn.MentionRegex, FLAG_IS, 'BaseMention.MentionRegex (regex.I | regex.S)'))
+    em = load_class(_res('recognizers-sequence', 'recognizers_sequence', 'base_email.py'), 'BaseEmail')
+    out.append(('emailRegex', em.EmailRegex, FLAG_IS, 'BaseEmail.EmailRegex (regex.I | regex.S)'))
+    ur = load_class(_res('recognizers-sequence', 'recognizers_sequence', 'base_url.py'), 'BaseURL')
+    out.append(('urlRegex', ur.UrlRegex, FLAG_IS, 'BaseURL.UrlRegex (regex.I | regex.S)'))
+    out.append(('urlRegex2', ur.UrlRegex2, FLAG_IS, 'BaseURL.UrlRegex2 (regex.I | regex.S)'))
+    out.append(('ipUrlRegex', ur.IpUrlRegex, FLAG_IS, 'BaseURL.IpUrlRegex (regex.I | regex.S)'))
+    out.append(('urlAmbiguousTimeTerm', ur.AmbiguousTimeTerm, FLAG_IS, 'BaseURL.AmbiguousTimeTerm (regex.I | regex.S)'))
+    ph = load_class(_res('recognizers-sequence', 'recognizers_sequence', 'base_phone_numbers.py'), 'BasePhoneNumbers')
+    wb, nwb, ewb = ph.WordBoundariesRegex, ph.NonWordBoundariesRegex, ph.EndWordBoundariesRegex
+    for nm, args in (('General', (wb, ewb)), ('BR', (wb, nwb, ewb)), ('UK', (wb, nwb, ewb)), ('DE', (wb, ewb)),
+                     ('US', (wb, nwb, ewb)), ('CN', (wb, ewb)), ('DK', (wb, ewb)), ('IT', (wb, ewb)), ('NL', (wb, ewb)),
+                     ('Special', (wb, ewb))):
+        out.append(('phone%sRegex' % nm, getattr(ph, nm + 'PhoneNumberRegex')(*args), FLAG_IS,
+                    'BasePhoneNumbers.%sPhoneNumberRegex(base word-boundary regexes) (regex.I | regex.S)' % nm))
     gd = load_class(_res('recognizers-sequence', 'recognizers_sequence', 'base_GUID.py'), 'BaseGUID')
     out.append(('guidRegex', gd.GUIDRegex, FLAG_IS, 'BaseGUID.GUIDRegex (regex.I | regex.S)'))
     out.append(('guidElementRegex', gd.GUIDRegexElement, 0, 'BaseGUID.GUIDRegexElement (no flags: GUIDParser.score_guid)'))
@@ -390,7 +404,7 @@ def generate():
              '  space c := RTV.Py.inRangesArr reSpaceRanges c\n\n')
     names = []
     for name, ast, pat, flags, origin in ok:
-        text += '/-- %s\n    pattern: %s -/\n' % (origin, pat.replace('-/', '- /'))
+        text += '/-- %s\n    pattern: %s -/\n' % (origin, pat.replace('-/', '- /').replace('/-', '/ -'))
         text += 'def %s : RE :=\n%s\n\n' % (name, wrap(lean_re(ast)))
         names.append(name)
     for name, t in raw:
